@@ -20,6 +20,7 @@ def main():
     for pid in ALL:
         if pid not in CLAIMS: continue
         c = CLAIMS[pid]
+        assert c["category"] in ("exploration", "fault_enumeration", "model_checking", "proof", "translation_validation", "other"), (pid, c["category"])
         checks.append({
             "property_id": pid,
             "quick_cmd": f"./check {pid}",
